@@ -5,6 +5,7 @@ TEXT_KINDS = ['str', 'uri', 'refdis', 'xstr']
 ALPHA_KINDS = ['refname', 'refname_dis', 'unit', 'xstrtype', 'bin']
 POS30 = ['cell', 'gridmeta', 'colmeta', 'list', 'dict', 'nested']
 POS20 = ['cell', 'gridmeta', 'colmeta']
+META = '\\"$`uU04Afn, :#'       # as in C08
 
 
 def matrix(fmt, tier, kf_bin):
@@ -20,6 +21,7 @@ def matrix(fmt, tier, kf_bin):
         jobs.append(dict(cat, positions=['cell'], multi=True))
         jobs.append(dict(fmt=fmt, kind='catalog', extra='zones', positions=['cell'], version=ver, N=0, timeout=to))
         jobs.append(dict(fmt=fmt, kind='catalog', extra='times', positions=['cell'] if ver == '3.0' else ['gridmeta'], version=ver, N=0, timeout=to))
+        jobs.append(dict(fmt=fmt, kind='catalog', extra='pairs', positions=['cell'], version=ver, N=0, timeout=to))
         for kind in TEXT_KINDS + ALPHA_KINDS:
             if kind in ('xstr', 'xstrtype') and ver == '2.0':
                 continue        # XStr is a 3.0 kind (C10)
@@ -36,6 +38,10 @@ def matrix(fmt, tier, kf_bin):
                 for n in ns:
                     jobs.append(dict(fmt=fmt, kind=kind, position=pos, version=ver, N=n, timeout=to))
         jobs.append(dict(fmt=fmt, kind='str', position='cell', version=ver, N=1, multi=True, timeout=to))
+        # six code points over the metacharacter alphabet (backslash, quotes, $, u, hex digits, n, ...): escape sequences that
+        # only exist from 2-6 characters on (escaped backslash followed by u and four hex digits, ...)
+        for kind in ('str', 'uri'):
+            jobs.append(dict(fmt=fmt, kind=kind, position='cell' if ver == '3.0' else 'gridmeta', version=ver, N=6, alphabet=META, timeout=max(to, 300)))
     return jobs
 
 
@@ -44,8 +50,8 @@ def run_fmt(chk, fmt):
     jobs = matrix(fmt, chk.tier, kf_bin)
     if chk.only:
         jobs = [j for j in jobs if chk.only in textprops.job_name(j)]
-    nmax = max(j['N'] for j in jobs)
-    chk.bounds = dict(symbolic_payload_code_points='<=%d per document; text kinds over all of Unicode minus surrogates; ref names / units / xstr type names / bin mime types over their Haystack alphabets' % nmax,
+    nmax = max([j['N'] for j in jobs if not j.get('alphabet')] or [0])
+    chk.bounds = dict(symbolic_payload_code_points='<=%d per document (plus 6 over the metacharacter alphabet for str/uri); text kinds over all of Unicode minus surrogates; ref names / units / xstr type names / bin mime types over their Haystack alphabets' % nmax,
                       kinds_symbolic=TEXT_KINDS + ALPHA_KINDS, positions_3_0=POS30, positions_2_0=POS20,
                       catalogue='57 (2.0) / 71 (3.0) concrete boundary values of the non-text kinds (bool, singletons, numbers incl. -0.0, 5e-324, 1.797e308, 2**53, inf, nan; quantities; dates; times; date-times in 4 zones; coordinates; refs; nested lists/dicts/grids to depth 3) at every position',
                       documents='single grid and two-grid documents', versions=['2.0', '3.0'])
